@@ -1,9 +1,9 @@
 (* Extraction of the report model (C20). ExtrOcamlBasic only; N, positive, nat stay inductive. *)
 From Coq Require Import NArith List.
-From SG Require Import Report.Summary Report.Stats Report.Escape Report.Uri.
+From SG Require Import Report.Summary Report.Stats Report.Escape Report.Uri Report.Roots.
 Require Extraction. Require Import ExtrOcamlBasic.
 Extraction Language OCaml.
 Extraction "../ocaml/gen/report_ex.ml"
-  summarize text_summary listed html_aggregate effective check_file run_check exit_code decorate
+  summarize text_summary listed html_aggregate html_aggregate_v0 structure_result effective check_file run_check exit_code decorate
   project_totals by_language by_language_v0 by_directory by_directory_v0 dir_key permute
-  language_of language_of_v0 html_escape html_escape_spec html_safe html_unescape uri_encode uri_decode uri_ok.
+  language_of language_of_v0 html_escape html_escape_spec html_safe html_unescape uri_encode uri_decode uri_ok drop_covered run_files run_files_v0 roots_overlap.
